@@ -24,8 +24,60 @@ Definition run_cfb (v : val) : val :=
   let b := vb (vnth 0 v) in
   VL [of_bool (cfb_check b); VZs (cfb_problems b)].
 
+(* ---- mode 2: makeFreeSectors  input [ss count table obs_list obs_table']  output [codes]  (1 = differs from the model) *)
+Definition zl (v : val) : list Z := map vz (vl v).
+Definition run_free (v : val) : val :=
+  let '(fl, t') := make_free (vz (vnth 0 v)) (vz (vnth 1 v)) (zl (vnth 2 v)) in
+  VL [VZs (if list_eqb Z.eqb fl (zl (vnth 3 v)) && list_eqb Z.eqb t' (zl (vnth 4 v)) then [] else [1])].
+
+(* ---- mode 3: addStream  input [ss len short sat ssat rootnext rootsize status first sat' ssat' rootsize']
+   status: 0 ok, 1 error, 2 panic.  codes: 1 status differs, 2 result differs *)
+Definition status_of {X} (r : result X) : Z := match r with Ok _ => 0 | Err _ => 1 | Panic _ => 2 end.
+Definition run_stream (v : val) : val :=
+  let ss := vz (vnth 0 v) in let len := vz (vnth 1 v) in let short := vbool (vnth 2 v) in
+  let sat := zl (vnth 3 v) in let ssat := zl (vnth 4 v) in
+  let rootnext := vz (vnth 5 v) in let rootsize := vz (vnth 6 v) in
+  let o_status := vz (vnth 7 v) in let o_first := vz (vnth 8 v) in
+  let o_sat := zl (vnth 9 v) in let o_ssat := zl (vnth 10 v) in let o_size := vz (vnth 11 v) in
+  if short then
+    let r := add_stream_short ss 64 len sat ssat rootnext rootsize in
+    VL [VZs ((if status_of r =? o_status then [] else [1]) ++
+             match r with
+             | Ok (first, ssat', sat', size') =>
+                 if (first =? o_first) && list_eqb Z.eqb ssat' o_ssat && list_eqb Z.eqb sat' o_sat && (size' =? o_size) then [] else [2]
+             | _ => [] end)]
+  else
+    let r := add_stream_long ss len sat in
+    VL [VZs ((if status_of r =? o_status then [] else [1]) ++
+             match r with
+             | Ok (first, sat') =>
+                 if (first =? o_first) && list_eqb Z.eqb sat' o_sat && list_eqb Z.eqb ssat o_ssat && (rootsize =? o_size) then [] else [2]
+             | _ => [] end)].
+
+(* ---- mode 4: lessDirEnt  input [units_a units_b utf8_a utf8_b observed]  output [codes ; ms-cfb order says a<b]
+   codes: 1 comparator differs from the model, 2 UTF-8 form of the name differs *)
+Definition run_less (v : val) : val :=
+  let a := zl (vnth 0 v) in let b := zl (vnth 1 v) in
+  VL [VZs ((if Bool.eqb (relic_less a b) (vbool (vnth 4 v)) then [] else [1]) ++
+           (if bytes_eqb (utf8_of_units a) (vb (vnth 2 v)) && bytes_eqb (utf8_of_units b) (vb (vnth 3 v)) then [] else [2]));
+      of_bool (cfb_less a b)].
+
+(* ---- mode 5: allocSectorTables  input [ss sat msat msatlist status sat' msat' msatlist']  codes as mode 3 *)
+Definition run_tables (v : val) : val :=
+  let sat := zl (vnth 1 v) in
+  let r := alloc_tables (S (S (length sat))) (vz (vnth 0 v)) sat (zl (vnth 2 v)) (zl (vnth 3 v)) in
+  VL [VZs ((if status_of r =? vz (vnth 4 v) then [] else [1]) ++
+           match r with
+           | Ok (sat', msat', ml') =>
+               if list_eqb Z.eqb sat' (zl (vnth 5 v)) && list_eqb Z.eqb msat' (zl (vnth 6 v)) && list_eqb Z.eqb ml' (zl (vnth 7 v)) then [] else [2]
+           | _ => [] end)].
+
 Definition run (v : val) : val :=
   let m := vz (vnth 0 v) in
   if m =? 0 then run_rb (vnth 1 v)
   else if m =? 1 then run_cfb (vnth 1 v)
+  else if m =? 2 then run_free (vnth 1 v)
+  else if m =? 3 then run_stream (vnth 1 v)
+  else if m =? 4 then run_less (vnth 1 v)
+  else if m =? 5 then run_tables (vnth 1 v)
   else VL [].
